@@ -156,8 +156,8 @@ pub fn corpus(quick: bool) -> Vec<Gen> {
             // both specials defined, in either order: each must be validated on its own
             let other = if special == "WHITESPACE" { "COMMENT" } else { "WHITESPACE" };
             for b in small.iter() {
-                out.push(Gen { text: format!("{other} = _{{ \"b\" }} {special} = {m}{{ {b} }} r = {{ \"a\" ~ \"a\" }}"), class: "special-body" });
-                out.push(Gen { text: format!("{special} = {m}{{ {b} }} {other} = _{{ \"b\" }} r = {{ \"a\" ~ \"a\" }}"), class: "special-body" });
+                out.push(Gen { text: format!("{other} = _{{ \"b\" }} {special} = {m}{{ {b} }} s = {{ \"b\" }} r = {{ \"a\" ~ \"a\" }}"), class: "special-body" });
+                out.push(Gen { text: format!("{special} = {m}{{ {b} }} {other} = _{{ \"b\" }} s = {{ \"b\" }} r = {{ \"a\" ~ \"a\" }}"), class: "special-body" });
             }
         }
         // specials that reference themselves / each other / the start rule
